@@ -24,7 +24,10 @@ REGISTRATION = {
             "a Resolve fired at the code's own yield point (testHookBeforeFinalWrite), seeded deterministic "
             "interleavings of real concurrent Puts (+ -race); L2 after every step: re-hash of every blob Get reports with a "
             "stored size, store-ok-retrievable, acknowledged blobs stay, Link/Resolve agreement, resolved digests were asked for, "
-            "Unlink removes the name in every spelling, directory-tree frame condition of every operation.",
+            "Unlink removes the name in every spelling, Links() = disk, directory-tree frame condition of every operation; a share "
+            "of the histories runs in cache directories whose path has glob metacharacters/spaces/non-ASCII; the real syscall "
+            "trace of stores is compared with the model's effect list and checked for the noEarlyFull shape; blobs of 1-16 MiB "
+            "in the kill enumeration and the interleaving driver (L2 only).",
     "design_ref": "DESIGN.md §5 C08",
     "note": COMMON_NOTE + "Modelled, not verified: POSIX semantics of open/write/ftruncate/rename (program order = disk "
             "order, rename atomic, no torn write(2) other than a byte-prefix), io.Copy's 32 KiB buffering (scripts stay "
@@ -68,6 +71,8 @@ THEOREMS = [
     "OllamaVerif.C08.link_crash_atomic",
     "OllamaVerif.C08.link_cut_resolves_asked",
     "OllamaVerif.C08.inplace_first_link_exposes_empty_manifest",
+    "OllamaVerif.C08.copyNamedEffs_noEarlyFull",
+    "OllamaVerif.C08.prealloc_violates_shape_and_safety",
     "OllamaVerif.BlobCache.nameToPath_safe",
     # Tie 1: the Link theorems at the variant found in the tree (compile only for the repaired Link, fix 834f6be9a)
     "OllamaVerif.Tie.C08.tree_link_is_fixed",
@@ -144,7 +149,7 @@ def run(ctx):
     ctx.coverage["theorems_about_pinned_link_only"] = HISTORICAL
     ctx.coverage["link_variant"] = ["pinned (in place)", "repaired (temp+rename)", "repaired + zero-length refusal"][variant]
     env = {"VERIF_C08_FIXED": variant, "VERIF_N": ctx.scale(1200, 30000), "VERIF_NCONC": ctx.scale(1200, 20000),
-           "VERIF_NCRASH": ctx.scale(54, 270)}
+           "VERIF_NCRASH": ctx.scale(54, 270), "VERIF_NBIG": ctx.scale(5, 10), "VERIF_NBIGCONC": ctx.scale(2, 3)}
     if ctx.replay:
         env["VERIF_REPLAY"] = ctx.replay_line_file()
     rc, out, outdir = ctx.go_test(PKG, OVERLAY, "^TestVerifC08$", env=env, timeout=3000)
